@@ -1,2 +1,602 @@
-(* C06 proofs: placeholder *)
-From TT Require Import Lib.Base Model.Matchers Spec.C06 Corr.C06.
+(* C06 - match() returns None exactly when the documented predicate holds:
+   structural induction over matcher expressions. *)
+From Coq Require Import Permutation.
+From TT Require Import Lib.Base Lib.Sort Model.Matchers Spec.C06 Corr.C06 Proof.C06Setwise Proof.C06Leaves.
+
+(* ---------- induction principle for the nested type ---------- *)
+Section MatcherInd.
+  Variable P : matcher -> Prop.
+  Hypothesis HEquals : forall e, P (Equals e).
+  Hypothesis HNotEquals : forall e, P (NotEquals e).
+  Hypothesis HIs : forall e, P (Is e).
+  Hypothesis HLessThan : forall e, P (LessThan e).
+  Hypothesis HGreaterThan : forall e, P (GreaterThan e).
+  Hypothesis HContains : forall e, P (Contains e).
+  Hypothesis HStartsWith : forall e, P (StartsWith e).
+  Hypothesis HEndsWith : forall e, P (EndsWith e).
+  Hypothesis HHasLength : forall n, P (HasLength n).
+  Hypothesis HIsInstance : forall t, P (IsInstance t).
+  Hypothesis HSameMembers : forall e, P (SameMembers e).
+  Hypothesis HKeysEqual : forall k, P (KeysEqual k).
+  Hypothesis HAlways : P Always.
+  Hypothesis HNever : P Never.
+  Hypothesis HLeaf : forall n, P (Leaf n).
+  Hypothesis HMatchesException : forall i cs a vm, (forall m, vm = Some m -> P m) -> P (MatchesException i cs a vm).
+  Hypothesis HRaises : forall em, (forall m, em = Some m -> P m) -> P (Raises em).
+  Hypothesis HNot : forall m, P m -> P (Not m).
+  Hypothesis HMatchesAll : forall fo ms, Forall P ms -> P (MatchesAll fo ms).
+  Hypothesis HMatchesAny : forall ms, Forall P ms -> P (MatchesAny ms).
+  Hypothesis HAllMatch : forall m, P m -> P (AllMatch m).
+  Hypothesis HAnyMatch : forall m, P m -> P (AnyMatch m).
+  Hypothesis HMatchesListwise : forall fo ms, Forall P ms -> P (MatchesListwise fo ms).
+  Hypothesis HMatchesSetwise : forall s ms, Forall P ms -> P (MatchesSetwise s ms).
+  Hypothesis HMatchesDict : forall kms, Forall (fun km => P (snd km)) kms -> P (MatchesDict kms).
+  Hypothesis HContainsDict : forall kms, Forall (fun km => P (snd km)) kms -> P (ContainsDict kms).
+  Hypothesis HContainedByDict : forall kms, Forall (fun km => P (snd km)) kms -> P (ContainedByDict kms).
+  Hypothesis HMatchesStructure : forall ams, Forall (fun am => P (snd am)) ams -> P (MatchesStructure ams).
+  Hypothesis HAfterPreprocessing : forall p a m, P m -> P (AfterPreprocessing p a m).
+  Hypothesis HAnnotate : forall n m, P m -> P (Annotate n m).
+
+  Fixpoint matcher_rect' (m : matcher) : P m :=
+    let lst := fix lst (ms : list matcher) : Forall P ms :=
+                 match ms with [] => Forall_nil _ | m' :: r => Forall_cons _ (matcher_rect' m') (lst r) end in
+    let klst := fun K => fix klst (kms : list (K * matcher)) : Forall (fun km => P (snd km)) kms :=
+                 match kms with
+                 | [] => Forall_nil _
+                 | km :: r => Forall_cons km (match km as p return P (snd p) with (_, m') => matcher_rect' m' end)
+                                          (klst r)
+                 end in
+    let opt := fun (o : option matcher) =>
+                 match o as o' return (forall m', o' = Some m' -> P m') with
+                 | Some m0 => fun m' E => eq_ind m0 P (matcher_rect' m0) m' (f_equal (fun x => match x with Some y => y | None => m0 end) E)
+                 | None => fun m' E => False_ind _ (eq_ind None (fun x => match x with None => True | Some _ => False end) I _ E)
+                 end in
+    match m with
+    | Equals e => HEquals e | NotEquals e => HNotEquals e | Is e => HIs e | LessThan e => HLessThan e
+    | GreaterThan e => HGreaterThan e | Contains e => HContains e | StartsWith e => HStartsWith e
+    | EndsWith e => HEndsWith e | HasLength n => HHasLength n | IsInstance t => HIsInstance t
+    | SameMembers e => HSameMembers e | KeysEqual k => HKeysEqual k | Always => HAlways | Never => HNever
+    | Leaf n => HLeaf n
+    | MatchesException i cs a vm => HMatchesException i cs a vm (opt vm)
+    | Raises em => HRaises em (opt em)
+    | Not m' => HNot m' (matcher_rect' m')
+    | MatchesAll fo ms => HMatchesAll fo ms (lst ms)
+    | MatchesAny ms => HMatchesAny ms (lst ms)
+    | AllMatch m' => HAllMatch m' (matcher_rect' m')
+    | AnyMatch m' => HAnyMatch m' (matcher_rect' m')
+    | MatchesListwise fo ms => HMatchesListwise fo ms (lst ms)
+    | MatchesSetwise s ms => HMatchesSetwise s ms (lst ms)
+    | MatchesDict kms => HMatchesDict kms (klst key kms)
+    | ContainsDict kms => HContainsDict kms (klst key kms)
+    | ContainedByDict kms => HContainedByDict kms (klst key kms)
+    | MatchesStructure ams => HMatchesStructure ams (klst nat ams)
+    | AfterPreprocessing p a m' => HAfterPreprocessing p a m' (matcher_rect' m')
+    | Annotate n m' => HAnnotate n m' (matcher_rect' m')
+    end.
+End MatcherInd.
+
+(* ---------- small facts ---------- *)
+Lemma leaf_none b : leaf b = None <-> b = true.
+Proof. destruct b; simpl; split; congruence. Qed.
+Lemma ann_none r : ann r = None <-> r = None.
+Proof. destruct r; simpl; split; congruence. Qed.
+Lemma is_none_iff {A} (r : option A) b : (r = None <-> b = true) -> is_none r = b.
+Proof. destruct r, b; simpl; intros [H1 H2]; try reflexivity; [discriminate (H2 eq_refl)|discriminate (H1 eq_refl)]. Qed.
+
+Lemma Forall_flat_map' {A B} (P : B -> Prop) (f : A -> list B) l :
+  Forall P (flat_map f l) <-> Forall (fun x => Forall P (f x)) l.
+Proof.
+  induction l as [|x l IH]; simpl; [split; constructor|].
+  rewrite Forall_app, IH. split; [intros [H1 H2]; constructor; assumption|intro H; inversion H; auto].
+Qed.
+
+Lemma Forall_combine {A} (P Q R : A -> Prop) l :
+  (forall x, P x -> Q x -> R x) -> Forall P l -> Forall Q l -> Forall R l.
+Proof. intros H HP. induction HP; intro HQ; inversion HQ; subst; constructor; auto. Qed.
+
+Lemma map_forall_iff {A} (f : A -> option mm) (g : A -> bool) l :
+  Forall (fun x => f x = None <-> g x = true) l ->
+  (Forall (fun r => r = None) (map f l) <-> forallb g l = true).
+Proof.
+  induction 1 as [|x l Hx _ IH]; simpl; [split; [reflexivity|constructor]|].
+  rewrite andb_true_iff, <- IH, <- Hx. split; [intro F; inversion F; auto|intros [? ?]; constructor; auto].
+Qed.
+
+Lemma map_exists_iff {A} (f : A -> option mm) (g : A -> bool) l :
+  Forall (fun x => f x = None <-> g x = true) l ->
+  (Exists (fun r => r = None) (map f l) <-> existsb g l = true).
+Proof.
+  induction 1 as [|x l Hx _ IH]; simpl; [split; [intro E; inversion E|discriminate]|].
+  rewrite orb_true_iff, <- IH, <- Hx. split; [intro E; inversion E; auto|intros [?|?]; [left|right]; auto].
+Qed.
+
+Lemma labelled_none rs : labelled rs = None <-> Forall (fun r => r = None) rs.
+Proof.
+  unfold labelled. induction rs as [|r t IH]; simpl; [split; [constructor|reflexivity]|].
+  destruct r as [d|]; simpl.
+  - split; [discriminate|]. intro F; inversion F; discriminate.
+  - rewrite IH. split; [intro; constructor; auto|intro F; inversion F; auto].
+Qed.
+
+Lemma dict_mis_none l : dict_mis l = None <-> l = [].
+Proof. destruct l; simpl; split; congruence. Qed.
+
+Lemma sub_dict_of_none {A B} (e : list (key * A)) (o : list (key * B)) :
+  sub_dict_of e o = None <-> forallb (fun kv => has_key (fst kv) e) o = true.
+Proof.
+  unfold sub_dict_of. rewrite dict_mis_none. induction o as [|kv o IH]; simpl; [split; reflexivity|].
+  destruct (has_key (fst kv) e); simpl; [exact IH|split; discriminate].
+Qed.
+
+Section Main.
+  Variable leafsem : nat -> val -> bool.
+  Variable rank : nat -> nat -> nat.
+  Notation M := (match_ leafsem rank).
+  Notation Sm := (sem leafsem).
+  Notation SA := subapps.
+
+  (* ---------- unfolding equations: the nested fixpoints are maps ---------- *)
+  Lemma match_All fo ms v : M (MatchesAll fo ms) v = all_loop fo (map (fun m' => M m' v) ms) [].
+  Proof. reflexivity. Qed.
+  Lemma match_Any ms v : M (MatchesAny ms) v = any_loop (map (fun m' => M m' v) ms) [].
+  Proof. reflexivity. Qed.
+  Lemma match_Listwise fo ms l :
+    M (MatchesListwise fo ms) (VList l) = listwise fo (Nat.eqb (length l) (length ms)) (zipw M ms l).
+  Proof. simpl. f_equal. revert l; induction ms as [|m' r IH]; intros [|x l]; simpl; try reflexivity. f_equal. apply IH. Qed.
+  Lemma match_Setwise s ms l :
+    M (MatchesSetwise s ms) (VList l)
+    = setwise_post (reorder (rank s) (map (fun m' => map (fun x => is_none (M m' x)) l) ms)) (length l).
+  Proof. reflexivity. Qed.
+
+  Definition diffs (kms : list (key * matcher)) (obs : list (key * val)) : list mm :=
+    flat_map (fun km => match lookup (fst km) obs with
+                        | Some x => match M (snd km) x with Some d => [d] | None => [] end
+                        | None => []
+                        end) kms.
+  Lemma match_Dict kms obs :
+    M (MatchesDict kms) (VDict obs) = labelled [sub_dict_of kms obs; sub_dict_of obs kms; dict_mis (diffs kms obs)].
+  Proof.
+    simpl. apply (f_equal (fun z => labelled [sub_dict_of kms obs; sub_dict_of obs kms; dict_mis z])).
+    induction kms as [|[k m'] r IH]; simpl; [reflexivity|]. rewrite IH. reflexivity.
+  Qed.
+  Lemma match_ContainsDict kms obs :
+    M (ContainsDict kms) (VDict obs) = labelled [sub_dict_of obs kms; dict_mis (diffs kms obs)].
+  Proof.
+    simpl. apply (f_equal (fun z => labelled [sub_dict_of obs kms; dict_mis z])).
+    induction kms as [|[k m'] r IH]; simpl; [reflexivity|]. rewrite IH. reflexivity.
+  Qed.
+  Lemma match_ContainedByDict kms obs :
+    M (ContainedByDict kms) (VDict obs) = labelled [sub_dict_of kms obs; dict_mis (diffs kms obs)].
+  Proof.
+    simpl. apply (f_equal (fun z => labelled [sub_dict_of kms obs; dict_mis z])).
+    induction kms as [|[k m'] r IH]; simpl; [reflexivity|]. rewrite IH. reflexivity.
+  Qed.
+
+  Definition sres (attrs : list (nat * val)) (ams : list (nat * matcher)) : list (nat * option mm) :=
+    map (fun am => (fst am, match getattr (fst am) attrs with
+                            | Some x => ann (M (snd am) x)
+                            | None => Some MLeaf
+                            end)) ams.
+  Lemma match_Structure ams i attrs :
+    M (MatchesStructure ams) (VRec i attrs)
+    = listwise false true (map snd (isort (fun a b => Nat.leb (fst a) (fst b)) (sres attrs ams))).
+  Proof.
+    simpl. apply (f_equal (fun z => listwise false true (map snd (isort (fun a b => Nat.leb (fst a) (fst b)) z)))).
+    induction ams as [|[a m'] r IH]; simpl; [reflexivity|]. rewrite IH. reflexivity.
+  Qed.
+
+  Lemma diffs_nil kms obs :
+    diffs kms obs = [] <->
+    Forall (fun km => match lookup (fst km) obs with Some x => M (snd km) x = None | None => True end) kms.
+  Proof.
+    unfold diffs. induction kms as [|km r IH]; simpl; [split; [constructor|reflexivity]|].
+    split.
+    - intro H. apply app_eq_nil in H as [H1 H2]. constructor; [|apply IH; exact H2].
+      destruct (lookup (fst km) obs); [|exact I]. destruct (M (snd km) v); [discriminate|reflexivity].
+    - intro F. inversion F as [|? ? H1 H2]; subst. apply IH in H2. rewrite H2, app_nil_r.
+      destruct (lookup (fst km) obs); [|reflexivity]. rewrite H1. reflexivity.
+  Qed.
+
+  (* ---------- the theorem ---------- *)
+  Definition good (mv : matcher * val) : Prop := local_dom leafsem mv = true /\ local_amb leafsem mv = false.
+  Definition TF (m : matcher) : Prop := forall v, Forall good (SA m v) -> (M m v = None <-> Sm m v = true).
+
+  Ltac root H D := inversion H as [|? ? [D _] ?]; subst; simpl in D.
+
+  Lemma tf_children_same ms v :
+    Forall TF ms -> Forall good (flat_map (fun m' => SA m' v) ms) ->
+    Forall (fun m' => M m' v = None <-> Sm m' v = true) ms.
+  Proof.
+    intros IH G. apply Forall_flat_map' in G.
+    eapply Forall_combine; [|exact IH|exact G]. intros m' T Gm. apply T. exact Gm.
+  Qed.
+
+  Lemma tf_elements m' l :
+    TF m' -> Forall good (flat_map (SA m') l) -> Forall (fun x => M m' x = None <-> Sm m' x = true) l.
+  Proof.
+    intros T G. apply Forall_flat_map' in G. eapply Forall_impl; [|exact G]. intros x Gx. apply T. exact Gx.
+  Qed.
+
+  Lemma tf_listwise ms : Forall TF ms -> forall l, Forall good (zipcat SA ms l) ->
+    (forall2b Sm ms l = true <-> (Nat.eqb (length l) (length ms) = true /\ Forall (fun r => r = None) (zipw M ms l))).
+  Proof.
+    induction 1 as [|m' ms T _ IH]; intros [|x l] G; simpl.
+    - split; [intros _; split; [reflexivity|constructor]|reflexivity].
+    - split; [discriminate|intros [? _]; discriminate].
+    - split; [discriminate|intros [? _]; discriminate].
+    - simpl in G. apply Forall_app in G as [G1 G2]. rewrite andb_true_iff, (IH l G2), <- (T x G1).
+      split.
+      + intros [H1 [H2 H3]]. split; [exact H2|constructor; assumption].
+      + intros [H2 F]. inversion F; subst. auto.
+  Qed.
+
+  Lemma tf_dict_entries kms obs :
+    Forall (fun km => TF (snd km)) kms ->
+    Forall good (flat_map (fun km => match lookup (fst km) obs with Some x => SA (snd km) x | None => [] end) kms) ->
+    Forall (fun km => match lookup (fst km) obs with
+                      | Some x => M (snd km) x = None <-> Sm (snd km) x = true
+                      | None => True end) kms.
+  Proof.
+    intros IH G. apply Forall_flat_map' in G.
+    eapply Forall_combine; [|exact IH|exact G]. intros km T Gm. simpl in *.
+    destruct (lookup (fst km) obs); [apply T; exact Gm|exact I].
+  Qed.
+
+  Lemma has_key_lookup {A} k (l : list (key * A)) : has_key k l = true <-> lookup k l <> None.
+  Proof. unfold has_key. destruct (lookup k l); split; congruence. Qed.
+
+  Theorem truth_functional : forall m, TF m.
+  Proof.
+    apply matcher_rect'; unfold TF.
+    - intros e v H. simpl. apply leaf_none.
+    - intros e v H. simpl. apply leaf_none.
+    - intros e v H. simpl. apply leaf_none.
+    - intros e v H. simpl. apply leaf_none.
+    - intros e v H. simpl. apply leaf_none.
+    - intros e v H. simpl. apply leaf_none.
+    - intros e v H. simpl. apply leaf_none.
+    - intros e v H. simpl. apply leaf_none.
+    - intros n v H. simpl. apply leaf_none.
+    - intros t v H. simpl. apply leaf_none.
+    - (* SameMembers *)
+      intros e v H. root H D. destruct v; try discriminate. simpl. rewrite leaf_none.
+      apply same_members_code. exact D.
+    - (* KeysEqual *)
+      intros ks v H. destruct v; try (simpl; split; discriminate). simpl.
+      rewrite <- same_keys_code. destruct (list_eqb key_eqb _ _); simpl; split; congruence.
+    - intros v H. simpl. split; reflexivity.
+    - intros v H. simpl. split; discriminate.
+    - intros n v H. simpl. apply leaf_none.
+    - (* MatchesException *)
+      intros i cs a vm IH v H. destruct v; try (simpl; split; discriminate). simpl.
+      destruct (existsb (issub c) cs); simpl; [|split; discriminate].
+      destruct i; [apply leaf_none|].
+      destruct vm as [m'|]; [|split; reflexivity].
+      apply (IH m' eq_refl). simpl in H. inversion H; assumption.
+    - (* Raises *)
+      intros em IH v H. root H D. destruct v; try discriminate; simpl.
+      + split; discriminate.
+      + destruct em as [m'|]; simpl in *.
+        * assert (G : Forall good (SA m' (VExc c args))) by (inversion H; assumption).
+          pose proof (IH m' eq_refl _ G) as T. unfold raises_rule. simpl.
+          destruct (M m' (VExc c args)) as [d|]; simpl.
+          -- destruct (is_user c); simpl; rewrite <- T; split; discriminate.
+          -- rewrite <- T. split; reflexivity.
+        * rewrite orb_false_r in D. unfold raises_rule. simpl. rewrite D. simpl. split; reflexivity.
+    - (* Not *)
+      intros m' IH v H. simpl. simpl in H. inversion H as [|? ? _ G]; subst. specialize (IH v G).
+      destruct (M m' v), (Sm m' v); simpl; split; try congruence; intro X.
+      + destruct IH as [_ I2]. discriminate (I2 eq_refl).
+      + destruct IH as [I1 _]. discriminate (I1 eq_refl).
+    - (* MatchesAll *)
+      intros fo ms IH v H. rewrite match_All, all_loop_none. simpl. simpl in H. inversion H as [|? ? _ G]; subst.
+      rewrite <- (map_forall_iff _ _ _ (tf_children_same ms v IH G)). tauto.
+    - (* MatchesAny *)
+      intros ms IH v H. rewrite match_Any, any_loop_none. simpl. simpl in H. inversion H as [|? ? _ G]; subst.
+      apply (map_exists_iff _ _ _ (tf_children_same ms v IH G)).
+    - (* AllMatch *)
+      intros m' IH v H. destruct v; try (simpl; split; discriminate).
+      simpl. simpl in H. inversion H as [|? ? _ G]; subst. rewrite all_loop_none.
+      rewrite <- (map_forall_iff _ _ _ (tf_elements m' l IH G)). tauto.
+    - (* AnyMatch *)
+      intros m' IH v H. destruct v; try (simpl; split; discriminate).
+      simpl. simpl in H. inversion H as [|? ? _ G]; subst. rewrite any_loop_none.
+      apply (map_exists_iff _ _ _ (tf_elements m' l IH G)).
+    - (* MatchesListwise *)
+      intros fo ms IH v H. destruct v; try (simpl; split; discriminate).
+      rewrite match_Listwise. simpl Sm. simpl in H. inversion H as [|? ? _ G]; subst.
+      rewrite (tf_listwise ms IH l G). unfold listwise. rewrite all_loop_none.
+      destruct (Nat.eqb (length l) (length ms)); split; intros [? ?]; try discriminate; auto.
+    - (* MatchesSetwise *)
+      intros s ms IH v H. destruct v; try (simpl; split; discriminate).
+      rewrite match_Setwise. simpl Sm.
+      inversion H as [|? ? [_ A] G]; subst. simpl in A, G.
+      assert (E : map (fun m' => map (fun x => is_none (M m' x)) l) ms = map (fun m' => map (Sm m') l) ms).
+      { apply Forall_flat_map' in G. apply map_ext_in. intros m' Hm. apply map_ext_in. intros x Hx.
+        apply is_none_iff.
+        apply (proj1 (Forall_forall _ _) IH m' Hm).
+        pose proof (proj1 (Forall_forall _ _) G m' Hm) as Gm. apply Forall_flat_map' in Gm.
+        apply (proj1 (Forall_forall _ _) Gm x Hx). }
+      rewrite E. apply setwise_exact_m. exact A.
+    - (* MatchesDict *)
+      intros kms IH v H. destruct v; try (simpl; split; discriminate).
+      rewrite match_Dict, labelled_none. simpl Sm. simpl in H. inversion H as [|? ? _ G]; subst.
+      pose proof (tf_dict_entries kms kvs IH G) as E.
+      rewrite andb_true_iff, <- sub_dict_of_none.
+      split.
+      + intro F. inversion F as [|? ? F1 F']; subst. inversion F' as [|? ? F2 F'']; subst.
+        inversion F'' as [|? ? F3 _]; subst. split; [exact F1|].
+        apply sub_dict_of_none in F2. apply dict_mis_none, diffs_nil in F3.
+        apply forallb_forall. intros km Hkm.
+        pose proof (proj1 (forallb_forall _ _) F2 km Hkm) as K. apply has_key_lookup in K.
+        pose proof (proj1 (Forall_forall _ _) F3 km Hkm) as Dk.
+        pose proof (proj1 (Forall_forall _ _) E km Hkm) as Ek.
+        cbv beta in *. destruct (lookup (fst km) kvs); [apply Ek; exact Dk|congruence].
+      + intros [F1 F2]. constructor; [exact F1|]. constructor; [|constructor; [|constructor]].
+        * apply sub_dict_of_none. apply forallb_forall. intros km Hkm.
+          pose proof (proj1 (forallb_forall _ _) F2 km Hkm) as K. apply has_key_lookup.
+          cbv beta in *. destruct (lookup (fst km) kvs); [discriminate|discriminate].
+        * apply dict_mis_none, diffs_nil. apply Forall_forall. intros km Hkm.
+          pose proof (proj1 (forallb_forall _ _) F2 km Hkm) as K.
+          pose proof (proj1 (Forall_forall _ _) E km Hkm) as Ek.
+          cbv beta in *. destruct (lookup (fst km) kvs); [apply Ek; exact K|exact I].
+    - (* ContainsDict *)
+      intros kms IH v H. destruct v; try (simpl; split; discriminate).
+      rewrite match_ContainsDict, labelled_none. simpl Sm. simpl in H. inversion H as [|? ? _ G]; subst.
+      pose proof (tf_dict_entries kms kvs IH G) as E.
+      split.
+      + intro F. inversion F as [|? ? F2 F'']; subst. inversion F'' as [|? ? F3 _]; subst.
+        apply sub_dict_of_none in F2. apply dict_mis_none, diffs_nil in F3.
+        apply forallb_forall. intros km Hkm.
+        pose proof (proj1 (forallb_forall _ _) F2 km Hkm) as K. apply has_key_lookup in K.
+        pose proof (proj1 (Forall_forall _ _) F3 km Hkm) as Dk.
+        pose proof (proj1 (Forall_forall _ _) E km Hkm) as Ek.
+        cbv beta in *. destruct (lookup (fst km) kvs); [apply Ek; exact Dk|congruence].
+      + intros F2. constructor; [|constructor; [|constructor]].
+        * apply sub_dict_of_none. apply forallb_forall. intros km Hkm.
+          pose proof (proj1 (forallb_forall _ _) F2 km Hkm) as K. apply has_key_lookup.
+          cbv beta in *. destruct (lookup (fst km) kvs); [discriminate|discriminate].
+        * apply dict_mis_none, diffs_nil. apply Forall_forall. intros km Hkm.
+          pose proof (proj1 (forallb_forall _ _) F2 km Hkm) as K.
+          pose proof (proj1 (Forall_forall _ _) E km Hkm) as Ek.
+          cbv beta in *. destruct (lookup (fst km) kvs); [apply Ek; exact K|exact I].
+    - (* ContainedByDict *)
+      intros kms IH v H. destruct v; try (simpl; split; discriminate).
+      rewrite match_ContainedByDict, labelled_none. simpl Sm. simpl in H. inversion H as [|? ? _ G]; subst.
+      pose proof (tf_dict_entries kms kvs IH G) as E.
+      rewrite andb_true_iff, <- sub_dict_of_none.
+      split.
+      + intro F. inversion F as [|? ? F1 F'']; subst. inversion F'' as [|? ? F3 _]; subst.
+        split; [exact F1|]. apply dict_mis_none, diffs_nil in F3.
+        apply forallb_forall. intros km Hkm.
+        pose proof (proj1 (Forall_forall _ _) F3 km Hkm) as Dk.
+        pose proof (proj1 (Forall_forall _ _) E km Hkm) as Ek.
+        cbv beta in *. destruct (lookup (fst km) kvs); [apply Ek; exact Dk|reflexivity].
+      + intros [F1 F2]. constructor; [exact F1|]. constructor; [|constructor].
+        apply dict_mis_none, diffs_nil. apply Forall_forall. intros km Hkm.
+        pose proof (proj1 (forallb_forall _ _) F2 km Hkm) as K.
+        pose proof (proj1 (Forall_forall _ _) E km Hkm) as Ek.
+        cbv beta in *. destruct (lookup (fst km) kvs); [apply Ek; exact K|exact I].
+    - (* MatchesStructure *)
+      intros ams IH v H. destruct v; try (simpl; split; discriminate).
+      rewrite match_Structure. simpl Sm. simpl in H. inversion H as [|? ? _ G]; subst.
+      unfold listwise. rewrite all_loop_none.
+      assert (P : Permutation (map snd (sres attrs ams))
+                              (map snd (isort (fun a b => Nat.leb (fst a) (fst b)) (sres attrs ams))))
+        by (apply Permutation_map, isort_perm).
+      transitivity (Forall (fun r : option mm => r = None) (map snd (sres attrs ams))).
+      { split; [intros [_ F]; eapply Permutation_Forall; [apply Permutation_sym; exact P|exact F]|].
+        intro F. split; [reflexivity|]. eapply Permutation_Forall; [exact P|exact F]. }
+      unfold sres. rewrite map_map. simpl.
+      apply map_forall_iff.
+      apply Forall_flat_map' in G. eapply Forall_combine; [|exact IH|exact G].
+      intros am T Gm. simpl in *. destruct (getattr (fst am) attrs); [|split; discriminate].
+      rewrite ann_none. apply T. exact Gm.
+    - (* AfterPreprocessing *)
+      intros p a m' IH v H. simpl. simpl in H. inversion H as [|? ? _ G]; subst.
+      destruct (apply_pp p v) as [w|]; [|split; discriminate].
+      destruct a; [rewrite ann_none|]; apply IH; exact G.
+    - (* Annotate *)
+      intros n m' IH v H. simpl. simpl in H. inversion H as [|? ? _ G]; subst.
+      rewrite ann_none. apply IH; exact G.
+  Qed.
+End Main.
+
+(* ---------- consequences at the level of the statement ---------- *)
+Lemma good_of_dom_amb leafsem m v :
+  dom leafsem m v = true -> amb leafsem m v = false -> Forall (good leafsem) (subapps m v).
+Proof.
+  unfold dom, amb. intros D A. apply Forall_forall. intros mv Hin. split.
+  - apply (proj1 (forallb_forall _ _) D mv Hin).
+  - destruct (local_amb leafsem mv) eqn:E; [|reflexivity].
+    assert (existsb (local_amb leafsem) (subapps m v) = true) by (apply existsb_exists; exists mv; auto). congruence.
+Qed.
+
+Theorem tf_dom leafsem rank m v :
+  dom leafsem m v = true -> amb leafsem m v = false ->
+  (match_ leafsem rank m v = None <-> sem leafsem m v = true).
+Proof. intros D A. apply truth_functional. apply good_of_dom_amb; assumption. Qed.
+
+Theorem pure leafsem rank1 rank2 m v :
+  dom leafsem m v = true -> amb leafsem m v = false ->
+  (match_ leafsem rank1 m v = None <-> match_ leafsem rank2 m v = None).
+Proof. intros D A. rewrite (tf_dom leafsem rank1 m v D A), (tf_dom leafsem rank2 m v D A). tauto. Qed.
+
+Theorem setwise_sound leafsem rank s ms l :
+  (forall m' x, In m' ms -> In x l -> (match_ leafsem rank m' x = None <-> sem leafsem m' x = true)) ->
+  match_ leafsem rank (MatchesSetwise s ms) (VList l) = None ->
+  exists ms', Permutation ms ms' /\ Forall2 (fun m x => sem leafsem m x = true) ms' l.
+Proof.
+  intros IH H. rewrite match_Setwise in H. apply setwise_sound_m in H.
+  apply (assign_matrix (sem leafsem)).
+  erewrite map_ext_in; [exact H|]. intros m' Hm. simpl. apply map_ext_in. intros x Hx.
+  symmetry. apply is_none_iff. apply IH; assumption.
+Qed.
+
+Theorem setwise_complete leafsem rank s ms l :
+  dom leafsem (MatchesSetwise s ms) (VList l) = true -> amb leafsem (MatchesSetwise s ms) (VList l) = false ->
+  (exists ms', Permutation ms ms' /\ Forall2 (fun m x => sem leafsem m x = true) ms' l) ->
+  match_ leafsem rank (MatchesSetwise s ms) (VList l) = None.
+Proof.
+  intros D A H. apply (tf_dom leafsem rank _ _ D A). simpl. apply (assign_matrix (sem leafsem)). exact H.
+Qed.
+
+(* what Raises lets through *)
+Theorem raises_rule_spec leafsem rank em c a c' :
+  run leafsem rank (Raises em) (VRaise c a) = OProp c' <->
+  c' = c /\ is_user c = false /\
+  match em with Some m' => match_ leafsem rank m' (VExc c a) <> None | None => True end.
+Proof.
+  simpl. unfold raises_rule. destruct em as [m'|]; simpl.
+  - destruct (match_ leafsem rank m' (VExc c a)) as [d|]; simpl.
+    + destruct (is_user c); split; try discriminate.
+      * intros [_ [X _]]; discriminate.
+      * intro H; injection H as ->. repeat split; discriminate.
+      * intros [-> _]. reflexivity.
+    + split; [discriminate|]. intros [_ [_ X]]. congruence.
+  - destruct (is_user c); split; try discriminate.
+    + intros [_ [X _]]; discriminate.
+    + intro H; injection H as ->. repeat split.
+    + intros [-> _]. reflexivity.
+Qed.
+
+Lemma ov_eqb_eq a b : ov_eqb a b = true <-> a = b.
+Proof.
+  destruct a, b; simpl; split; intro H; try discriminate; try reflexivity; try congruence.
+  - apply Nat.eqb_eq in H. congruence.
+  - injection H as ->. apply Nat.eqb_refl.
+Qed.
+
+Lemma obs_eqb_spec a b : obs_eqb a b = true <-> a = b.
+Proof.
+  unfold obs_eqb. rewrite andb_true_iff, (list_eqb_spec ov_eqb ov_eqb_eq), bool_eqb_spec.
+  destruct a, b; simpl. split; [intros [-> ->]; reflexivity|intro H; injection H as -> ->; auto].
+Qed.
+
+Lemma spec_okb_sound i o : spec_okb i o = true -> Spec i o.
+Proof.
+  unfold spec_okb, Spec. intros H D. rewrite D in H.
+  apply andb_true_iff in H as [H H3]. apply andb_true_iff in H as [H1 H2].
+  split; [exact H1|]. split; [apply Nat.eqb_eq; exact H2|].
+  apply Forall_forall. intros b Hb. apply ov_eqb_eq. apply (proj1 (forallb_forall _ _) H3 b Hb).
+Qed.
+
+(* the top-level call: either Raises applied to a raising callable, or the plain verdict *)
+Definition lift (r : option mm) : outcome := match r with None => OMatch | Some d => OMis d end.
+Lemma top_cases m v :
+  (exists em c a, m = Raises em /\ v = VRaise c a) \/
+  (forall acc runs ls rk,
+      let i := {| i_m := m; i_v := v; i_accept := acc; i_runs := runs |} in
+      run ls rk m v = lift (match_ ls rk m v)
+      /\ idom i = dom (leafsem_of acc) m v
+      /\ expected i = (if isem i m v then Matched else Mismatched)
+      /\ finding_F13 i = amb (leafsem_of acc) m v).
+Proof.
+  destruct m; try (right; intros; repeat split; reflexivity).
+  destruct v; try (right; intros; repeat split; try reflexivity; destruct em; reflexivity).
+  left. eauto.
+Qed.
+
+Theorem model_meets_spec : forall i, finding_F13 i = false -> spec_okb i (model i) = true.
+Proof.
+  intros [m v acc runs] F. unfold spec_okb, model. simpl verdicts. simpl stable.
+  destruct (idom _) eqn:D; [|reflexivity].
+  rewrite map_length, Nat.eqb_refl. simpl. apply forallb_forall. intros b Hb.
+  apply in_map_iff in Hb as [r [<- _]]. apply ov_eqb_eq.
+  destruct (top_cases m v) as [[em [c [a [-> ->]]]]|G].
+  - unfold expected, idom, finding_F13, isem in *. simpl in *. unfold raises_rule.
+    destruct em as [m'|]; simpl.
+    + pose proof (tf_dom (leafsem_of acc) (rank_of r) m' (VExc c a) D F) as T.
+      destruct (match_ (leafsem_of acc) (rank_of r) m' (VExc c a)) as [d|]; simpl.
+      * destruct (sem (leafsem_of acc) m' (VExc c a)); [destruct T as [_ T]; discriminate (T eq_refl)|].
+        destruct (is_user c); reflexivity.
+      * destruct T as [T _]. rewrite (T eq_refl). reflexivity.
+    + destruct (is_user c); reflexivity.
+  - destruct (G acc runs (leafsem_of acc) (rank_of r)) as [G1 [G2 [G3 G4]]].
+    rewrite G1, G3. rewrite G2 in D. rewrite G4 in F.
+    pose proof (tf_dom (leafsem_of acc) (rank_of r) m v D F) as T. unfold isem. simpl.
+    destruct (match_ (leafsem_of acc) (rank_of r) m v) as [d|]; simpl.
+    + destruct (sem (leafsem_of acc) m v); [destruct T as [_ T]; discriminate (T eq_refl)|reflexivity].
+    + destruct T as [T _]. rewrite (T eq_refl). reflexivity.
+Qed.
+
+(* ---------- the documented predicate, clause by clause ---------- *)
+Section Clauses.
+  Variable ls : nat -> val -> bool.
+  Notation Sm := (sem ls).
+
+  Lemma sem_not m v : Sm (Not m) v = negb (Sm m v).
+  Proof. reflexivity. Qed.
+  Lemma sem_all fo ms v : Sm (MatchesAll fo ms) v = true <-> Forall (fun m => Sm m v = true) ms.
+  Proof. simpl. rewrite forallb_forall, Forall_forall. tauto. Qed.
+  Lemma sem_any ms v : Sm (MatchesAny ms) v = true <-> Exists (fun m => Sm m v = true) ms.
+  Proof. simpl. rewrite existsb_exists, Exists_exists. tauto. Qed.
+  Lemma sem_allmatch m l : Sm (AllMatch m) (VList l) = true <-> Forall (fun x => Sm m x = true) l.
+  Proof. simpl. rewrite forallb_forall, Forall_forall. tauto. Qed.
+  Lemma sem_anymatch m l : Sm (AnyMatch m) (VList l) = true <-> Exists (fun x => Sm m x = true) l.
+  Proof. simpl. rewrite existsb_exists, Exists_exists. tauto. Qed.
+  Lemma sem_listwise fo ms l :
+    Sm (MatchesListwise fo ms) (VList l) = true <-> Forall2 (fun m x => Sm m x = true) ms l.
+  Proof.
+    simpl. revert l; induction ms as [|m ms IH]; intros [|x l]; simpl; split; intro H;
+      try discriminate; try constructor; try (inversion H; fail).
+    - apply andb_true_iff in H. tauto.
+    - apply IH. apply andb_true_iff in H. tauto.
+    - inversion H; subst. apply andb_true_iff. split; [assumption|apply IH; assumption].
+  Qed.
+  Lemma sem_setwise s ms l :
+    Sm (MatchesSetwise s ms) (VList l) = true <->
+    exists ms', Permutation ms ms' /\ Forall2 (fun m x => Sm m x = true) ms' l.
+  Proof. simpl. apply (assign_matrix Sm). Qed.
+  Lemma sem_dict kms obs :
+    Sm (MatchesDict kms) (VDict obs) = true <->
+    (forall kv, In kv obs -> has_key (fst kv) kms = true) /\
+    (forall km, In km kms -> exists x, lookup (fst km) obs = Some x /\ Sm (snd km) x = true).
+  Proof.
+    simpl. rewrite andb_true_iff, !forallb_forall. split; intros [H1 H2]; (split; [exact H1|]); intros km Hk.
+    - specialize (H2 km Hk). destruct (lookup (fst km) obs) as [x|]; [eauto|discriminate].
+    - destruct (H2 km Hk) as [x [-> Hx]]. exact Hx.
+  Qed.
+  Lemma sem_containsdict kms obs :
+    Sm (ContainsDict kms) (VDict obs) = true <->
+    (forall km, In km kms -> exists x, lookup (fst km) obs = Some x /\ Sm (snd km) x = true).
+  Proof.
+    simpl. rewrite forallb_forall. split; intros H2 km Hk.
+    - specialize (H2 km Hk). destruct (lookup (fst km) obs) as [x|]; [eauto|discriminate].
+    - destruct (H2 km Hk) as [x [-> Hx]]. exact Hx.
+  Qed.
+  Lemma sem_containedbydict kms obs :
+    Sm (ContainedByDict kms) (VDict obs) = true <->
+    (forall kv, In kv obs -> has_key (fst kv) kms = true) /\
+    (forall km x, In km kms -> lookup (fst km) obs = Some x -> Sm (snd km) x = true).
+  Proof.
+    simpl. rewrite andb_true_iff, !forallb_forall. split; intros [H1 H2]; (split; [exact H1|]).
+    - intros km x Hk E. specialize (H2 km Hk). rewrite E in H2. exact H2.
+    - intros km Hk. destruct (lookup (fst km) obs) as [x|] eqn:E; [eapply H2; eassumption|reflexivity].
+  Qed.
+  Lemma sem_structure ams i attrs :
+    Sm (MatchesStructure ams) (VRec i attrs) = true <->
+    (forall am, In am ams -> exists x, getattr (fst am) attrs = Some x /\ Sm (snd am) x = true).
+  Proof.
+    simpl. rewrite forallb_forall. split; intros H2 am Hk.
+    - specialize (H2 am Hk). destruct (getattr (fst am) attrs) as [x|]; [eauto|discriminate].
+    - destruct (H2 am Hk) as [x [-> Hx]]. exact Hx.
+  Qed.
+  Lemma sem_after p a m v w : apply_pp p v = Some w -> Sm (AfterPreprocessing p a m) v = Sm m w.
+  Proof. simpl. intros ->. reflexivity. Qed.
+  Lemma sem_annotate n m v : Sm (Annotate n m) v = Sm m v.
+  Proof. reflexivity. Qed.
+End Clauses.
+
+(* ---------- finding F13: the full statement is false of the faithful model ---------- *)
+Definition f13_input : input :=
+  {| i_m := MatchesSetwise 0 [MatchesAny [Equals (VInt 1); Equals (VInt 2)]; Equals (VInt 1)];
+     i_v := VList [VInt 1; VInt 2];
+     i_accept := [];
+     i_runs := [[(0, [0; 1])]; [(0, [1; 0])]] |}.
+
+Lemma refuted_F13 : idom f13_input = true /\ finding_F13 f13_input = true
+                    /\ verdicts (model f13_input) = [Mismatched; Matched]
+                    /\ expected f13_input = Matched
+                    /\ spec_okb f13_input (model f13_input) = false.
+Proof. vm_compute. repeat split. Qed.
